@@ -67,6 +67,7 @@ def worker_main(argv: List[str]) -> int:
            "harness": [], "known_hits": Counter(), "configs": Counter()}
     idx = widx
     nviol = 0
+    known_list = load_known()
     gc.disable()
     out = open(outpath, "w")
     try:
@@ -104,7 +105,12 @@ def worker_main(argv: List[str]) -> int:
                     agg["harness"].append({"idx": idx, "outcome": res.get("outcome"),
                                            "detail": res.get("harness", "")})
             for v in res.get("violations", [])[:3]:
-                nviol += 1
+                if match_known(prop, v.get("sig", ""), known_list):
+                    agg["known_hits"][v.get("sig", "")] += 1
+                    if agg["known_hits"][v.get("sig", "")] > 1:
+                        continue        # keep one example; known findings never stop the search
+                else:
+                    nviol += 1
                 if v.get("plan_patch"):
                     plan = dict(plan, **v["plan_patch"])
                 agg["violations"].append({"idx": idx, "run_seed": rs, "plan": plan, "violation": v,
